@@ -191,7 +191,7 @@ func uintnExhaustiveBody(run *mon.Run, n uint64, depth2 int, cur *uint64) (evals
 
 // uintnLongRejections: first-draw table, then tapes of k rejected draws + one accepted draw.
 func uintnLongRejections(run *mon.Run, n uint64) (evals int64) {
-	t := &tape{data: make([]byte, 0, 4096)}
+	t := &tape{data: make([]byte, 0, 8192)}
 	g := random.NewVerifRand(t)
 	primeStale(g, t)
 	size := byteSize(n - 1)
@@ -218,7 +218,7 @@ func uintnLongRejections(run *mon.Run, n uint64) (evals int64) {
 		return
 	}
 	r := run.Rand(fmt.Sprintf("longrej-%d", n))
-	for _, k := range []int{1, 2, 3, 7, 8, 15, 16, 31, 32, 33, 63, 64, 65, 100, 200} {
+	for _, k := range []int{1, 2, 3, 7, 8, 15, 16, 31, 32, 33, 63, 64, 65, 100, 127, 128, 129, 200, 255, 256, 257, 300, 511, 512, 513, 1000, 1023, 1024, 1025} {
 		for trial := 0; trial < 24; trial++ {
 			last := r.IntN(total)
 			for first[last] < 0 {
